@@ -220,6 +220,10 @@ def per_member_verified(F, S):
 
 def check(F, run, tier):
     S = Summaries(F)
+    from ..rules_archive import find_position_obligations
+    find_position_obligations(F, S, run, ["/Archive/"])
+    from ..rules_archive import clamp_obligations
+    clamp_obligations(F, S, run, ["/Archive/"])
     from ..rules_archive import discarded_exception_obligations
     discarded_exception_obligations(F, S, run)
     from ..rules_archive import cstring_obligations
